@@ -19,6 +19,44 @@ class C05(ModelCheck):
     assumptions = ['interleaving of the *items* of overlapping windows inside one source event is not constrained (text is silent)']
     probe_names = ('window>=257_filled', 'ring_wrapped>=2', 'partial>=2_at_completion', 'stride>window', 'len<window', 'len0', 'nested_roll', 'under_group_by')
 
+    def gen(self, rng, tier):
+        if tier != 'quick' and rng.random() < 0.002:
+            # ultra-long single key (counters far beyond 16 bits); generated inside execute, compared on the final output only
+            return {'ultra': {'n': rng.choice([70000, 131073, 140000, 196609, 262147]), 'window': rng.choice([2, 3, 4, 5]),
+                              'stride': rng.choice([1, 2, 3])}, 'program': [], 'events': [], 'end': 'complete'}
+        return ModelCheck.gen(self, rng, tier)
+
+    def valid(self, case):
+        u = case.get('ultra')
+        if u is not None:
+            return isinstance(u.get('n'), int) and 0 <= u['n'] <= 300000 and u.get('window', 0) >= 1 and u.get('stride', 0) >= 1 and u['window'] <= 64
+        return ModelCheck.valid(self, case)
+
+    def execute(self, case):
+        u = case.get('ultra')
+        if u is None:
+            return ModelCheck.execute(self, case)
+        import rx
+        import rxsci as rs
+        from rxsim.runner import Outcome
+        out = Outcome()
+        n, w, s = u['n'], u['window'], u['stride']
+        got = []
+        rx.from_(range(n)).pipe(rs.state.with_memory_store([rs.data.roll(w, s, [rs.data.to_list()])])).subscribe(
+            on_next=got.append, on_error=lambda e: got.append(('error', repr(e))))
+        exp = [list(range(a, min(a + w, n))) for a in range(0, n, s)]
+        if got != exp:
+            k = next((i for i, (a, b) in enumerate(zip(got, exp)) if a != b), min(len(got), len(exp)))
+            out.add('window-close-order' if sorted(map(repr, got)) == sorted(map(repr, exp)) else 'window-items', 'roll',
+                    {'n': n, 'window': w, 'stride': s, 'first_difference_at_output': k, 'got': got[k:k + 4], 'expected': exp[k:k + 4]})
+        out.steps = n
+        out.ticks = n
+        out.nontrivial = True
+        out.shape = ('ultra', n, w, s)
+        out.digest = repr((n, w, s, len(got), got[-3:]))
+        out.probes['ultra_long_key>=70000'] += 1
+        return out
+
     def gen_program(self, rng, tier):
         g = Gen(rng, weights=self.weights, max_nest=2, small=(tier == 'quick'))
         from rxsim import program
